@@ -314,6 +314,14 @@ func c03specs() []gw.Spec {
 		return &c03mon{cfg: cfg.Predefined, subs: map[uint16]pendSub{}, alphabet: []string{
 			gw.EvC("DISCONNECT(0)", gw.Disconnect(0)), gw.EvC("PINGREQ", gw.Pingreq("")),
 			gw.EvC("SUBSCRIBE(a/b,q1,mid1)", gw.SubscribeName(1, "a/b", 1, false)), gw.EvC("PUBREL(mid1)", gw.Pubrel(1))}}
+	}}, {Name: "filters with empty levels", Cfg: cfg, Setup: connectSetup("c1", 30), Depth: 2, NewMonitor: func() gw.Monitor {
+		// MQTT allows empty topic levels: "/a", "a//b", "a/", "/" and their wildcard forms are filters like any other
+		var a []string
+		for _, f := range []string{"/a", "a//b", "a/", "/", "/#", "+/", "/+/x"} {
+			a = append(a, gw.EvC("SUBSCRIBE("+f+",q1,mid1)", gw.SubscribeName(1, f, 1, false)), gw.EvC("UNSUBSCRIBE("+f+",mid1)", gw.UnsubscribeName(1, f)))
+		}
+		a = append(a, gw.EvB("SUBACK(mid1,rc=0x1)", refmqtt.EncSuback(1, 1)), gw.EvB("UNSUBACK(mid1)", refmqtt.EncUnsuback(1)))
+		return &c03mon{cfg: cfg.Predefined, subs: map[uint16]pendSub{}, alphabet: a}
 	}}, {Name: "sleep cycles", Cfg: cfg, Setup: connectSetup("c1", 4), Depth: 7, NewMonitor: func() gw.Monitor {
 		return &c03mon{cfg: cfg.Predefined, subs: map[uint16]pendSub{}, alphabet: sleepAlpha}
 	}}}
@@ -435,7 +443,7 @@ func TestC03(t *testing.T) {
 		depth = 4
 	}
 	gw.BFSCheck(rep, specs, gw.BFSOpts{Test: "TestC03", Depth: depth}, 150, 900)
-	rep.Coverage["rule"] = "BFS over histories of SUBSCRIBE{plain,wildcard x2,predefined known/unknown,short} x QoS{0,1,2} x msg id{1,2} (thorough also DUP), broker SUBACK rc{0,1,2,0x80} x msg id{1,2}, UNSUBSCRIBE (same topic forms), PUBREL, PINGREQ, DISCONNECT, broker PUBREC/PUBCOMP/UNSUBACK/PINGRESP after a connect; plus histories up to depth 7 of sleep cycles (DISCONNECT(60), wake-up PINGREQ, wake-up CONNECT, keep-alive PINGREQ, broker PINGRESP, 4 s passing = one period of the gateway's own pings): the answers to the gateway's own pings are consumed, every other PINGRESP reaches an active client; plus the client's requests when sends to it fail (client unreachable); per event exactly one translated packet with the same msg id, resolved filter and requested QoS; SUBACK accepted iff broker rc<=2, then granted QoS and assigned topic id"
+	rep.Coverage["rule"] = "BFS over histories of SUBSCRIBE{plain,wildcard x2,predefined known/unknown,short} x QoS{0,1,2} x msg id{1,2} (thorough also DUP), broker SUBACK rc{0,1,2,0x80} x msg id{1,2}, UNSUBSCRIBE (same topic forms), PUBREL, PINGREQ, DISCONNECT, broker PUBREC/PUBCOMP/UNSUBACK/PINGRESP after a connect; plus histories up to depth 7 of sleep cycles (DISCONNECT(60), wake-up PINGREQ, wake-up CONNECT, keep-alive PINGREQ, broker PINGRESP, 4 s passing = one period of the gateway's own pings): the answers to the gateway's own pings are consumed, every other PINGRESP reaches an active client; plus the client's requests when sends to it fail (client unreachable); plus SUBSCRIBE / UNSUBSCRIBE of filters with empty levels (/a, a//b, a/, /, /#, +/, /+/x); per event exactly one translated packet with the same msg id, resolved filter and requested QoS; SUBACK accepted iff broker rc<=2, then granted QoS and assigned topic id"
 	explore.RunScenarios(rep, gw.Scenarios(t, c03e2()), explore.ScenarioOpts{Test: "TestC03", QuickBound: 2, ThoroughFrom: 2, ThoroughMax: 4, Unbounded: true,
 		QuickBudget: 60 * time.Second, ThoroughBudge: 5 * time.Minute})
 	rep.Assumptions = []string{"BFS part: default schedule; E2 part: all interleavings within the preemption bound of the handler's threads against a broker that answers at once, single requests and five pipelined requests (the next request is handled while the previous answers are translated); no time passes (a SUBACK arriving after the gateway's own RetryDelay bookkeeping expired is not demanded)"}
